@@ -15,6 +15,8 @@ def plan(tier):
             "writer_sink_short_writes_beyond_capacity", "writer_default_capacity_exceeded_short_sink",
             "sniff_at_nonzero_offset", "sniff_seek_at_offset", "sniff_get_kind_at_offset", "sniff_after_consuming",
             "sniff_second_block_same_format", "header_unicode_whitespace",
+            "io_interrupted_reads", "io_interrupted_before_first_byte", "io_interrupted_twice_in_a_row",
+            "sniffer_first_read_interrupted", "sink_interrupted_writes", "error_path_multibyte_at_every_offset",
             "cap1", "cap8192", "sched_all1", "sched_line_end", "wrap1", "wrap_eq_len", "wrap_len_plus1",
             "fastq_multiline", "crlf", "cut", "cut_all_offsets", "either_fasta", "either_fastq",
             "desc_with_whitespace", "qual_lead_at", "qual_lead_plus", "damaged", "arbitrary_ascii",
